@@ -124,9 +124,13 @@ def parseNode (s : List Char) : Option Node :=
 
 def showOptInt (o : Option Int) : String := match o with | some v => toString v | none => "x"
 
+def showNode (n : Node) : String :=
+  toString n.b ++ ":" ++ toString n.e ++ ":" ++ toString n.l ++ ":" ++ toString n.r ++ ":" ++ toString n.c
+
 /-- `C02 lattice len=<chars> conn=<num_left>:<num_right>:<cells,...> nodes=<b:e:l:r:c;...>` (nodes in
 insertion-compatible order: sorted by begin).  `cells[right_word.left_id * num_left + left_word.right_id]`
-answer: `ok totals=<per node, x = unreachable> eos=<cost|x> path=<cost recomputed along the back-pointer path>` -/
+answer: `ok totals=<per node, x = unreachable> eos=<cost|x> path=<cost recomputed along the back-pointer path>
+nodes=<b:e:l:r:c;... of the back-pointer path in text order|x>` (the node list pins the tie rule: first minimum) -/
 def handle (toks : List (List Char)) : String :=
   match Wire.kv? toks "len", Wire.kv? toks "conn", Wire.kv? toks "nodes" with
   | some ln, some cn, some ns =>
@@ -143,9 +147,12 @@ def handle (toks : List (List Char)) : String :=
         let pc := match eos with
           | none => "x"
           | some _ => toString (chainCost conn bos path)
+        let pn := match eos with
+          | none => "x"
+          | some _ => Wire.joinWith ";" (path.map showNode)
         -- `full=0`: the builder stopped early (a reachable position without any candidate), EOS was never connected
         if Wire.kv? toks "full" == some ['0'] then "ok totals=" ++ Wire.joinWith "," (totals.map showOptInt) else
-        "ok totals=" ++ Wire.joinWith "," (totals.map showOptInt) ++ " eos=" ++ showOptInt eos ++ " path=" ++ pc
+        "ok totals=" ++ Wire.joinWith "," (totals.map showOptInt) ++ " eos=" ++ showOptInt eos ++ " path=" ++ pc ++ " nodes=" ++ pn
       | _, _ => "bad-op"
     | _, _, _ => "bad-op"
   | _, _, _ => "bad-op"
